@@ -14,9 +14,11 @@ QUICK_MS = int(os.environ.get("PYVC_TIMEOUT_MS", "15000"))
 # net (z3 does not always honour its limits): WALL_FACTOR x the nominal budget + WALL_SLACK seconds, after which the context
 # is interrupted and the answer is `unknown` with reason "wall-clock" (never turned into a verdict about the code).
 RL_PER_MS = 5000
-WALL_FACTOR = 6.0
-WALL_SLACK = 45.0
+BASE_MS = 20000   # the quick tier's per-obligation budget
+WALL_FACTOR = 30.0
+WALL_SLACK = 120.0
 WALLCLOCK_HITS = []
+DERIVED = {}   # ast id -> term: assumptions that are consequences of the others or conservative definitions (State.assume(derived=True))
 STATS = dict(checks=0, seconds=0.0, rlimit_last=0)
 
 
@@ -32,6 +34,7 @@ STATE = dict(skip_default_first=False, ematch_wins=0)
 
 def reset_state():
     STATE.update(skip_default_first=False, ematch_wins=0)
+    DERIVED.clear()
     del WALLCLOCK_HITS[:]
 
 
@@ -197,7 +200,25 @@ def _guarded_check(s, timeout_ms, who="prove"):
 def prove(pc, goal, timeout_ms=None, want_model=True, external=True):
     t0 = time.time()
     try:
-        return _prove(pc, goal, timeout_ms, want_model, external)
+        # a larger budget (thorough tier) first runs exactly what the quick tier runs, and only then spends more: a query the
+        # quick tier discharges is discharged by every tier, by the same stage
+        timeout_ms = timeout_ms or QUICK_MS
+        base = min(timeout_ms, BASE_MS)
+        res = _prove(pc, goal, base, want_model, external)
+        if res["verdict"] == "unknown" and timeout_ms > base and external:
+            for kw in (dict(), dict(ematch=True)):
+                try:
+                    r, s = _check(pc, goal, timeout_ms if not kw else timeout_ms // 2, **kw)
+                except _Stuck:
+                    break   # the quick pipeline's verdict stands
+                if r == z3.unsat:
+                    res.update(verdict="unsat", backend="z3-5.1.0 (extended budget%s)" % (", e-matching" if kw else ""), ms=(time.time() - t0) * 1000.0)
+                    return res
+                if r == z3.sat and not kw:
+                    res.update(verdict="sat", backend="z3-5.1.0 (extended budget)", model=s.model() if want_model else None, ms=(time.time() - t0) * 1000.0)
+                    return res
+            res["ms"] = (time.time() - t0) * 1000.0
+        return res
     except _Stuck as e:
         return dict(verdict="unknown", backend="z3-5.1.0", model=None, ms=(time.time() - t0) * 1000.0,
                     reason="interrupted [wall-clock safety net fired: the solver ignored its resource limit on this query]")
@@ -219,11 +240,29 @@ def _prove(pc, goal, timeout_ms=None, want_model=True, external=True):
         if model is not None:
             res["model"] = model
         return res
-    r, s = _check(pc, goal, min(1500, timeout_ms) if quant else timeout_ms)
+    stuck = None
+    try:
+        r, s = _check(pc, goal, min(1500, timeout_ms) if quant else timeout_ms)
+    except _Stuck as e:
+        r, s, stuck = z3.unknown, e.args[0], e
     if r == z3.unsat:
         return done("unsat")
     if r == z3.sat:
         return done("sat", model=s.model() if want_model else None)
+    # (R) the same query without the DERIVED assumptions (proved facts, lemma instances, definitions of ghost functions): they do
+    # not change satisfiability, and they are what drags a simple refutation into non-linear / quantified reasoning
+    reduced = [c for c in pc if c.get_id() not in DERIVED]
+    if len(reduced) < len(pc):
+        try:
+            r2, s2 = _check(reduced, goal, min(3000, timeout_ms))
+        except _Stuck:
+            r2, s2 = z3.unknown, None
+        if r2 == z3.sat:
+            return done("sat", "z3-5.1.0 (derived facts dropped)", model=s2.model() if want_model else None)
+        if r2 == z3.unsat:
+            return done("unsat", "z3-5.1.0 (derived facts dropped)")
+    if stuck is not None:
+        raise stuck
     if quant:
         r, _ = _check(pc, goal, 500, qf_only=True)
         if r == z3.unsat:
